@@ -21,6 +21,7 @@ compares numbers with the numbers TLC printed, and moves integers to TLC.
 """
 import json
 import os
+import warnings
 
 import numpy as np
 
@@ -37,18 +38,25 @@ LAGS = ((1, 1), (5, 2))          # 5/2: a non-integer lag time, exact in binary
 # parts: the chains of a scope are split over `parts` single-worker TLC processes (checking and
 # emitting in one pass); emit: how many of the parts also print their cases for replay
 SCOPES = {
-    "quick": [dict(N=3, D=3, parts=1, emit=1, coverage=True),
+    "quick": [dict(N=3, D=3, parts=2, emit=2, coverage=True),     # + a coverage-statistics run on 1/16 of it
               dict(N=3, D=4, parts=3, emit=3),
-              dict(N=4, D=2, parts=9, emit=3)],
-    "thorough": [dict(N=3, D=3, parts=1, emit=1, coverage=True),
+              dict(N=4, D=2, parts=10, emit=2)],
+    "thorough": [# one multi-worker run, no emission; all-pairs mfpts (35 ms of rational arithmetic per chain)
+                 # are left to the parts below for this scope
+                 # (58 M states for the whole scope: ~10 min on 16 idle cores; one quarter of the chains,
+                 # rotating with VERIF_SEED, keeps the tier inside its budget)
+                 dict(N=4, D=3, parts=4, multi=1, workers=12, modes=("committor", "mfpt_sinks")),
+                 dict(N=4, D=3, parts=64, emit=2, only_emit=True),  # 2/64 of those chains, all modes, replayed
+                 dict(N=3, D=3, parts=1, emit=1, coverage=True),
                  dict(N=3, D=4, parts=2, emit=2),
                  dict(N=3, D=6, parts=8, emit=2),
                  dict(N=4, D=2, parts=4, emit=4),
-                 dict(N=4, D=3, parts=0, emit=0, workers=16),      # exhaustive only, one 16-worker run
-                 dict(N=4, D=3, parts=64, emit=2, only_emit=True),  # 2/64 of those chains replayed
                  dict(N=5, D=2, sample=40), dict(N=5, D=3, sample=40)],
 }
-N_TRACES = {"quick": 300, "thorough": 3000}
+N_TRACES = {"quick": 200, "thorough": 3000}
+if os.environ.get("VERIF_SMOKE"):      # a sub-scope of quick, for trying mutants on a busy machine
+    SCOPES["quick"] = SCOPES["quick"][:1]
+    N_TRACES["quick"] = 60
 
 
 # ------------------------------------------------------------------ replay (A)
@@ -108,7 +116,9 @@ def replay_case(c):
     def call(fname, cont, form, f, args, exp):
         before = [snapshot(a) for a in args]
         try:
-            got = f()
+            with warnings.catch_warnings(), np.errstate(all="ignore"):
+                warnings.simplefilter("ignore")
+                got = f()
         except Exception as ex:
             sparse = cont != "dense"
             if fname.startswith("mfpts") and sparse and _is_len_typeerror(ex):
@@ -127,9 +137,13 @@ def replay_case(c):
                         "detail": mm})
 
     for cont, M in _containers(T):
+        if cont not in c.get("containers", ALL_CONTAINERS):
+            continue
         if mode == "committor":
             a_src, a_snk = np.array(src), np.array(snk)
             call("committors", cont, "lists", lambda: tpt.committors(M, a_src, a_snk), [M, a_src, a_snk], c["q"])
+            if cont != "dense":
+                continue                      # the argument forms below do not depend on the container
             l_src, l_snk = list(src), list(snk)
             call("committors", cont, "pylists", lambda: tpt.committors(M, l_src, l_snk), [M], c["q"])
             if (l_src, l_snk) != (src, snk):
@@ -150,6 +164,19 @@ def replay_case(c):
             call("mfpts-all", cont, "lag=%s pops given" % lag,
                  lambda: tpt.mfpts(M, populations=pops, lagtime=lag), [M, pops], exp)
     return bad
+
+
+ALL_CONTAINERS = ("dense", "csr", "lil", "csc")
+
+
+def choose_containers(cases, tier):
+    """quick tier: committor cases use the dense container and ONE sparse container in rotation
+    (a sparse committors call costs ~1 ms); everything else, and the thorough tier, uses all four."""
+    for k, c in enumerate(cases):
+        if tier == "quick" and c.get("mode", "flux") in ("committor", "flux"):
+            c["containers"] = ["dense", ALL_CONTAINERS[1 + k % 3]]
+        else:
+            c["containers"] = list(ALL_CONTAINERS)
 
 
 def _nontrivial(c):
@@ -202,20 +229,29 @@ def _jobs(ctx, d, rng):
             cfg = core.write_cfg(os.path.join(d, "mc%d.cfg" % si), invariants=INVS + ["EmitInv"],
                                  constants=dict(N=N, D=D, Part=0, Parts=1, Emit="TRUE", Chains="<- MCChains",
                                                 Lags="<- MCLags", Modes="<- MCModes"))
-            jobs.append(dict(module=mod, cfg=os.path.basename(cfg), cwd=d, workers=1, timeout=1500,
+            jobs.append(dict(module=mod, cfg=os.path.basename(cfg), cwd=d, workers=1, timeout=3600,
                              label="sampled chains N=%d D=%d (%d), check+emit" % (N, D, len(chains))))
             meta.append(dict(sc=sc, emit=True))
             continue
-        mod = _mc_module(d, "MC%d" % si)
-        if sc["parts"] == 0:
+        mod = _mc_module(d, "MC%d" % si, modes=sc.get("modes", ALL_MODES))
+        if sc.get("multi"):
+            part = ctx.seed % sc["parts"]
             cfg = core.write_cfg(os.path.join(d, "mc%d.cfg" % si), invariants=INVS,
-                                 constants=dict(N=N, D=D, Part=0, Parts=1, Emit="FALSE", Chains="<- MCChains",
-                                                Lags="<- MCLags", Modes="<- MCModes"))
+                                 constants=dict(N=N, D=D, Part=part, Parts=sc["parts"], Emit="FALSE",
+                                                Chains="<- MCChains", Lags="<- MCLags", Modes="<- MCModes"))
             jobs.append(dict(module=mod, cfg=os.path.basename(cfg), cwd=d, workers=sc.get("workers", 8),
-                             timeout=3000, label="exhaustive N=%d D=%d" % (N, D)))
+                             timeout=7200, label="exhaustive N=%d D=%d part %d/%d modes=%s (no emission)"
+                             % (N, D, part, sc["parts"], "/".join(sc.get("modes", ALL_MODES)))))
             meta.append(dict(sc=sc, emit=False))
             continue
         first = ctx.seed % sc["parts"]
+        if sc.get("coverage"):        # TLC's -coverage costs ~3x: collect action counts on a 1/16 slice
+            cfg = core.write_cfg(os.path.join(d, "mc%d_cov.cfg" % si), invariants=INVS,
+                                 constants=dict(N=N, D=D, Part=ctx.seed % 16, Parts=16, Emit="FALSE",
+                                                Chains="<- MCChains", Lags="<- MCLags", Modes="<- MCModes"))
+            jobs.append(dict(module=mod, cfg=os.path.basename(cfg), cwd=d, workers=1, timeout=1500, coverage=True,
+                             label="N=%d D=%d 1/16 slice, action coverage" % (N, D)))
+            meta.append(dict(sc=sc, emit=False, cov=True))
         emit_parts = {(first + k) % sc["parts"] for k in range(sc["emit"])}
         for p in range(sc["parts"]):
             emit = p in emit_parts
@@ -226,8 +262,7 @@ def _jobs(ctx, d, rng):
                                  constants=dict(N=N, D=D, Part=p, Parts=sc["parts"],
                                                 Emit="TRUE" if emit else "FALSE", Chains="<- MCChains",
                                                 Lags="<- MCLags", Modes="<- MCModes"))
-            jobs.append(dict(module=mod, cfg=os.path.basename(cfg), cwd=d, workers=1, timeout=1500,
-                             coverage=bool(sc.get("coverage")),
+            jobs.append(dict(module=mod, cfg=os.path.basename(cfg), cwd=d, workers=1, timeout=3600,
                              label="exhaustive N=%d D=%d part %d/%d%s" % (N, D, p, sc["parts"],
                                                                          " +emit" if emit else "")))
             meta.append(dict(sc=sc, emit=emit))
@@ -297,7 +332,9 @@ def record_trace(job):
 
     def guarded(what, f):
         try:
-            return f()
+            with warnings.catch_warnings(), np.errstate(all="ignore"):
+                warnings.simplefilter("ignore")
+                return f()
         except Exception as ex:
             errors.append({"call": what, "detail": "raised %s: %s" % (type(ex).__name__, ex),
                            "exc": type(ex).__name__})
@@ -371,9 +408,9 @@ def _run_traces(ctx, d, rng):
         raise core.MachineryError("projection could not scale %d of %d mfpt events into 32-bit range" % (skipped, nev))
     for job, r in zip(jobs, recs):
         for e in r["errors"]:
-            ctx.violation({"kind": "trace-recording", "chain": job["A"], "call": e["call"], "detail": e["detail"],
-                           "how": "T = A / rowsum(A); the call must not raise on an irreducible chain"},
-                          key="trace/%s/raises-%s" % (e["call"].split()[0], e["exc"]))
+            _violation(ctx, {"kind": "trace-recording", "chain": job["A"], "call": e["call"], "detail": e["detail"],
+                             "how": "T = A / rowsum(A); the call must not raise on an irreducible chain"},
+                       key="trace/%s/raises-%s" % (e["call"].split()[0], e["exc"]))
     path = os.path.join(d, "traces.json")
     with open(path, "w") as fh:
         json.dump([r["trace"] for r in recs], fh)
@@ -385,7 +422,7 @@ def _run_traces(ctx, d, rng):
         if tag == "ACCEPT":
             verdict[val] = None
         elif tag == "REJECT":
-            verdict[val[0]] = val[1]
+            verdict[val["tid"]] = [tuple(x) for x in val["bad"]]
     for tid, rec in enumerate(recs, start=1):
         tr = rec["trace"]
         if tid not in verdict:
@@ -401,22 +438,34 @@ def _run_traces(ctx, d, rng):
             ev = tr["events"][ev_i - 1]
             cont = [k for k, v in CONT_TAG.items() if v == ev["cont"]][0]
             fn = {K_COMMITTOR: "committors", K_SINKS: "mfpts-sinks", K_ALL: "mfpts-all"}[ev["k"]]
-            ctx.violation({"kind": "trace", "clause": clause, "chain": tr["A"], "row_sums": tr["den"], "event": ev,
-                           "how": "Trace_Committor.tla %s on the recorded output of tpt.%s (%s); q x 1e6, mfpt x s"
-                                  % (clause, fn, cont)},
-                          key="trace/%s/%s/%s" % (fn, cont, clause))
+            _violation(ctx, {"kind": "trace", "clause": clause, "chain": tr["A"], "row_sums": tr["den"], "event": ev,
+                             "how": "Trace_Committor.tla %s on the recorded output of tpt.%s (%s); q x 1e6, mfpt x s"
+                                    % (clause, fn, cont)},
+                       key="trace/%s/%s/%s" % (fn, cont, clause))
     ctx.notes["trace_events"] = nev
     ctx.notes["trace_events_skipped_out_of_range"] = skipped
 
 
 # ------------------------------------------------------------------ entry points
 
+REPORT_CAP = 3      # examples written per mismatch class; every mismatch is counted in the evidence
+
+
+def _violation(ctx, record, key):
+    """ctx.violation, at most REPORT_CAP times per key unless the key is a listed known finding
+    (then every hit is counted by the framework)."""
+    counts = ctx.notes.setdefault("mismatch_counts", {})
+    counts[key] = counts.get(key, 0) + 1
+    if counts[key] <= REPORT_CAP or any(k["key"] == key for k in ctx.known):
+        ctx.violation(record, key=key)
+
+
 def _report(ctx, c, bad):
     for b in bad:
-        ctx.violation({"kind": "replay", "case": c, "call": b["call"], "detail": b["detail"],
-                       "how": "T = A/D (states 1-based in the case); tpt.%s vs the exact value printed by "
-                              "Committor.tla" % b["call"].split()[0]},
-                      key=b["key"])
+        _violation(ctx, {"kind": "replay", "case": c, "call": b["call"], "detail": b["detail"],
+                         "how": "T = A/D (states 1-based in the case); tpt.%s vs the exact value printed by "
+                                "Committor.tla" % b["call"].split()[0]},
+                   key=b["key"])
 
 
 def run(ctx):
@@ -432,17 +481,24 @@ def run(ctx):
     b = core.build_repo()
     core.activate(b)
     d = core.spec_tmp(SPEC_DIR)
+    import time
+    t0 = time.time()
     jobs, meta = _jobs(ctx, d, rng)
     results = ctx.tlc_parallel(jobs, max_par=16)
+    t1 = time.time()
     _run_traces(ctx, d, rng)
+    t2 = time.time()
     ncases = 0
     for r, mt in zip(results, meta):
+        if mt.get("cov") and not r.coverage:
+            raise core.MachineryError("no coverage statistics from the coverage slice")
         if not mt["emit"]:
             continue
         cases = [p for t, p in r.prints if t == "CASE"]
         if not cases:
             raise core.MachineryError("no CASE lines emitted for %s" % mt["sc"])
         ncases += len(cases)
+        choose_containers(cases, ctx.tier)
         res = core.pmap(replay_case, cases)
         for c, bad in zip(cases, res):
             key = (str(c["A"]), c["mode"], str(c["src"]), str(c["snk"]), str(c["lag"]))
@@ -451,7 +507,8 @@ def run(ctx):
             ctx.traces += 1
             _report(ctx, c, bad)
     ctx.notes["replayed_cases"] = ncases
-    if any("sample" in sc or sc.get("only_emit") or sc.get("emit", 0) < sc.get("parts", 0)
+    ctx.notes["wall_s_tlc_traces_replay"] = [round(t1 - t0, 1), round(t2 - t1, 1), round(time.time() - t2, 1)]
+    if any("sample" in sc or sc.get("only_emit") or sc.get("multi") or sc.get("emit", 0) < sc.get("parts", 0)
            for sc in SCOPES[ctx.tier]):
         ctx.exhaustive = False       # model checking is exhaustive per scope; replay covers a part of some scopes
 
